@@ -7,4 +7,7 @@ pub mod pbdecode;
 pub mod pools;
 pub mod props;
 pub mod scenario;
+pub mod sched;
+pub mod schedsrc;
+pub mod wgl;
 pub mod src;
